@@ -116,8 +116,25 @@ def core_texts(tier: str, seed: int = 0) -> List[str]:
                 off = (ci * 7 + pi * 3 + rep * 11 + seed) % len(atoms)
                 texts.append("%s (%s)" % (chain, instantiate(pat, atoms, off)))
     texts += name_clash_texts(tier)
+    texts += atom_internal_texts()
     rnd.shuffle(texts)
     return texts
+
+
+def atom_internal_texts() -> List[str]:
+    """SMT atoms with Boolean structure INSIDE the atom (S-expression and/or/not): negation and normal forms treat the
+    inside of an atom with separate code (z3_push_in_negations)."""
+    A, B, C = '(= v "a")', '(> (str.len w) 1)', '(str.prefixof "b" w)'
+    atoms = ["(or %s %s)" % (A, B), "(not (or %s %s))" % (A, B), "(not (and %s %s))" % (A, B), "(and %s (or %s %s))" % (A, B, C),
+             "(not (or %s (and %s %s)))" % (A, B, C), "(not (not (or %s %s)))" % (A, C), "(or %s %s %s)" % (A, B, C),
+             "(not (and %s %s %s))" % (A, B, C), "(=> %s %s)" % (A, B), "(not (=> %s (or %s %s)))" % (A, B, C)]
+    chain = "forall <var> v in start: exists <var> w in start:"
+    out = []
+    for i, X in enumerate(atoms):
+        out.append("%s %s" % (chain, X))
+        out.append("%s not %s" % (chain, X))
+        out.append("%s (not (%s and %s) or before(v, w))" % (chain, X, atoms[(i + 3) % len(atoms)]))
+    return out
 
 
 def name_clash_texts(tier: str) -> List[str]:
@@ -772,6 +789,15 @@ def c08_pairs(tier: str) -> List[Dict[str, str]]:
         'forall <var> v in start: ((forall <assgn> x="<var> := {<var> r}" in start: (= r "a")) and (= v "a"))')
     add("names/free-nonterminal-then-xpath", '<var> = "a" and <assgn>.<rhs>.<var> = "a"',
         'forall <var> v in start: ((= v "a") and (forall <assgn> x="<var> := {<var> r}" in start: (= r "a")))')
+    # match-expression variables that carry the default name of a free nonterminal (var for <var>), on named and unnamed quantifiers
+    core_ex = 'forall <var> v in start: exists <assgn> a="{<var> l} := <rhs>" in start: (= l v)'
+    core_fa = 'forall <var> v in start: forall <assgn> a="{<var> l} := <rhs>" in start: (= l v)'
+    add("names/mexpr-var-default-name/unnamed-exists", 'exists <assgn>="{<var> var} := <rhs>": var = <var>', core_ex)
+    add("names/mexpr-var-default-name/named-exists", 'exists <assgn> a="{<var> var} := <rhs>": var = <var>', core_ex)
+    add("names/mexpr-var-default-name/unnamed-forall", 'forall <assgn>="{<var> var} := <rhs>": var = <var>', core_fa)
+    add("names/mexpr-var-default-name/named-forall", 'forall <assgn> a="{<var> var} := <rhs>": var = <var>', core_fa)
+    add("names/quantifier-var-default-name", 'exists <assgn> var: var.<rhs>.<digit> = <digit>',
+        'forall <digit> e in start: exists <assgn> a="<var> := {<digit> d}" in start: (= d e)')
     add("xpath/exists-child-alternatives-descendant", 'exists <stmt> s: s.<assgn>..<var> = "a"',
         '(exists <stmt> s="{<assgn> x}" in start: forall <var> v in x: (= v "a")) or '
         '(exists <stmt> t="{<assgn> y} ; <stmt>" in start: forall <var> w in y: (= w "a"))')
